@@ -28,7 +28,7 @@ TIERS = {
     "quick": {"shards": 8, "budget_s": 50},
     "thorough": {"shards": 16, "budget_s": 540},
 }
-MIN_EVENTS = {"quick": 80, "thorough": 1200}
+MIN_EVENTS = {"quick": 8000, "thorough": 1200}
 DECIDING = {"planned", "inversion"}
 RULE = (
     "families L and N (first_order), N and L (stacked_time); 1-4 swap cells, anticipated only / unanticipated only / mixed, "
@@ -374,7 +374,7 @@ def replay(c, case):
 def shard(c):
     install()
     rng = c.rng
-    n = c.scale(110, 3000)
+    n = c.scale(440, 3000)
     for i in range(n):
         if c.out_of_time():
             break
